@@ -84,4 +84,7 @@ pub fn run(rc: &mut RunCtx) {
     for l in ["has_full", "tolerant", "input_mid_document", "input_mutated", "after_compaction", "implied_ancestor_end"] {
         rc.require_label("mirror", l, 10_000);
     }
+    if !rc.quick() {
+        rc.run_fuzz(Some(STAGES[0]), 300);
+    }
 }
